@@ -34,6 +34,7 @@ func c14(c *Ctx) {
 		"the parser accepts cover the kinds occurring in the shipped schema; (F) FlagIndex is emitted as the position of `flags:#`."
 	r.NotDecided = []string{"that for any schema the generated package compiles and declares the same constructors (needs running the generator on generated inputs)",
 		"name mangling collisions of goify for arbitrary names"}
+	c.errorsKept("R14.X", "the schema tool (tlparser, gen, main)", 20, inPkgs(load.ParsePkg, load.GenPkg, load.TlgenPkg))
 	r.Rule("R14.O", "no element of a slice filled in map-iteration order reaches an emission call before a dominating sort of that slice", 4)
 	r.Rule("R14.Q", "every jen.Qual(<repository package>, name) names an exported object of that package", 3)
 	r.Rule("R14.T", "tag literals emitted by the generator are the ones tl.parseTag recognises", 3)
@@ -1048,6 +1049,139 @@ func c14ObjSuffix(c *Ctx) {
 	}
 	// the positional / params-struct decision is taken where the wrapper's parameter list is written and again
 	// where its body builds the request: both must put the same question to the same quantity
+	// enum or struct: a type is emitted as an enum (uint32 constants) only when NO constructor of it has
+	// parameters; deciding on one constructor (the last, the first) drops the structs of the others
+	r.Rule("R14.E", "the enum classification is a universal over the type's constructors: createInternalSchema fills Enums only behind the true result of a predicate over the group, and in that predicate every path that has seen a constructor with parameters returns false", 2)
+	if f := c.fn("R14.E", load.GenPkg, "", "createInternalSchema"); f != nil {
+		var stores []ssa.Instruction
+		for _, b := range f.Blocks {
+			for _, in := range b.Instrs {
+				if mu, ok := in.(*ssa.MapUpdate); ok {
+					if ld, ok := mu.Map.(*ssa.UnOp); ok {
+						if fa, ok := ld.X.(*ssa.FieldAddr); ok && strings.HasSuffix(an.FieldName(fa.X.Type(), fa.Field), "internalSchema.Enums") {
+							stores = append(stores, in)
+						}
+					}
+				}
+			}
+		}
+		// the guards: Ifs of f whose condition is the result of a gen-package predicate
+		var pass []an.Edge
+		var preds []*ssa.Function
+		for _, i := range an.Ifs(f) {
+			cd, ok := an.Classify(i)
+			if !ok || !strings.HasPrefix(cd.Kind, "call:"+load.GenPkg+".") {
+				continue
+			}
+			if call, isCall := unNot(i.Cond).(*ssa.Call); isCall {
+				if g := an.StaticCallee(call.Common()); g != nil && len(g.Blocks) > 0 {
+					pass = append(pass, cd.EdgeWhen(true))
+					preds = append(preds, g)
+				}
+			}
+		}
+		switch {
+		case len(stores) == 0:
+			r.Undecide("R14.E", "enum:filled-behind-the-predicate", c.pos(f.Pos()), "no store into internalSchema.Enums found in createInternalSchema")
+		case len(pass) == 0:
+			r.Undecide("R14.E", "enum:filled-behind-the-predicate", c.pos(stores[0].Pos()), "the store into Enums is not guarded by the result of a predicate function over the group's constructors (classification shape not recognised)")
+		default:
+			un := an.Guarded(f, pass, stores)
+			r.Check(len(un) == 0, "R14.E", "enum:filled-behind-the-predicate", c.pos(stores[0].Pos()), sprintf("%d store(s) into Enums, %d reachable without the true edge of the predicate", len(stores), len(un)))
+		}
+		seenP := map[*ssa.Function]bool{}
+		for _, g := range preds {
+			if seenP[g] {
+				continue
+			}
+			seenP[g] = true
+			n := 0
+			var bad []string
+			for _, i := range an.Ifs(g) {
+				cd, ok := an.Classify(i)
+				if !ok || (cd.Kind != "ord" && cd.Kind != "eq") {
+					continue
+				}
+				lenOf := func(v ssa.Value) bool {
+					call, ok := v.(*ssa.Call)
+					if !ok || an.CalleeName(call.Common()) != "builtin:len" {
+						return false
+					}
+					return strings.Contains(tr14e.OriginString(call.Call.Args[0]), "tlparser.Object.Parameters")
+				}
+				var hasFields an.Edge
+				switch {
+				case cd.Kind == "ord" && lenOf(cd.X) && isConstInt(cd.Y, 0) && cd.Rel == ">":
+					hasFields = an.Edge{From: i.Block(), Succ: 0}
+				case cd.Kind == "ord" && lenOf(cd.X) && isConstInt(cd.Y, 0) && cd.Rel == "<=":
+					hasFields = an.Edge{From: i.Block(), Succ: 1}
+				case cd.Kind == "eq" && lenOf(cd.X) && isConstInt(cd.Y, 0):
+					hasFields = cd.EdgeWhen(false)
+				default:
+					continue
+				}
+				n++
+				reach, exec := an.ReachFromExec(g, hasFields, nil)
+				for _, b := range g.Blocks {
+					if !reach[b] {
+						continue
+					}
+					for _, in := range b.Instrs {
+						ret, ok := an.AsReturn(in)
+						if !ok || len(ret.Results) != 1 {
+							continue
+						}
+						if v := boolAlong(an.RetVal(ret, 0), exec, 0); v != "false" {
+							bad = append(bad, "after a constructor with parameters was seen ("+c.pos(i.Cond.Pos())+") the return at "+c.pos(ret.Pos())+" may answer "+v)
+						}
+					}
+				}
+			}
+			// ... and "true" is answered only after the whole group was looked at: with the loops' exhausted
+			// edges cut, no return may answer anything but false
+			{
+				cut := map[an.Edge]bool{}
+				for _, i := range an.Ifs(g) {
+					cd, ok := an.Classify(i)
+					if !ok {
+						continue
+					}
+					lenOfParam := func(v ssa.Value) bool {
+						call, ok := v.(*ssa.Call)
+						return ok && an.CalleeName(call.Common()) == "builtin:len" && len(g.Params) > 0 && call.Call.Args[0] == ssa.Value(g.Params[0])
+					}
+					switch {
+					case cd.Kind == "ord" && lenOfParam(cd.Y) && cd.Rel == "<":
+						cut[an.Edge{From: i.Block(), Succ: 1}] = true
+					case cd.Kind == "ord" && lenOfParam(cd.Y) && cd.Rel == ">=":
+						cut[an.Edge{From: i.Block(), Succ: 0}] = true
+					}
+				}
+				if len(cut) > 0 {
+					reach, exec := an.ReachExec(g, cut, nil)
+					for _, b := range g.Blocks {
+						if !reach[b] {
+							continue
+						}
+						for _, in := range b.Instrs {
+							if ret, ok := an.AsReturn(in); ok && len(ret.Results) == 1 {
+								if v := boolAlong(an.RetVal(ret, 0), exec, 0); v != "false" {
+									bad = append(bad, "the return at "+c.pos(ret.Pos())+" may answer "+v+" before every constructor of the group was looked at")
+								}
+							}
+						}
+					}
+				} else {
+					bad = append(bad, "no loop over the whole group found in the predicate")
+				}
+			}
+			if n == 0 {
+				r.Undecide("R14.E", "enum:any-fields-means-struct:"+g.Name(), c.pos(g.Pos()), "no test of len(constructor.Parameters) against 0 found in the predicate")
+			} else {
+				r.Check(len(bad) == 0, "R14.E", "enum:any-fields-means-struct:"+g.Name(), c.pos(g.Pos()), strings.Join(bad, "; "))
+			}
+		}
+	}
 	r.Rule("R14.A", "every comparison with maximumPositionalArguments in the generator relates the same quantity to it with the same operator (the signature and the body of a wrapper agree on positional vs params struct)", 2)
 	{
 		trA := an.NewTracer()
@@ -1382,3 +1516,62 @@ func c14SortComparators(c *Ctx, fns []*ssa.Function) {
 }
 
 var paramOrdinal = regexp.MustCompile(`param#\d+\.`)
+
+var tr14e = an.NewTracer()
+
+func unNot(v ssa.Value) ssa.Value {
+	for {
+		u, ok := v.(*ssa.UnOp)
+		if !ok || u.Op != token.NOT {
+			return v
+		}
+		v = u.X
+	}
+}
+
+func isConstInt(v ssa.Value, k int64) bool {
+	x, ok := an.ConstInt(v)
+	return ok && x == k
+}
+
+// boolAlong: the boolean a value may have when only the edges in exec were taken: "true", "false" or "either".
+func boolAlong(v ssa.Value, exec map[an.Edge]bool, depth int) string {
+	if depth > 6 {
+		return "either"
+	}
+	switch x := v.(type) {
+	case *ssa.Const:
+		if x.Value != nil && x.Value.Kind() == constant.Bool {
+			if constant.BoolVal(x.Value) {
+				return "true"
+			}
+			return "false"
+		}
+	case *ssa.UnOp:
+		if x.Op == token.NOT {
+			switch boolAlong(x.X, exec, depth+1) {
+			case "true":
+				return "false"
+			case "false":
+				return "true"
+			}
+		}
+	case *ssa.Phi:
+		res := ""
+		for _, e := range an.PhiValues(x, exec) {
+			if e == ssa.Value(x) {
+				continue
+			}
+			b := boolAlong(e, exec, depth+1)
+			if res == "" {
+				res = b
+			} else if res != b {
+				return "either"
+			}
+		}
+		if res != "" {
+			return res
+		}
+	}
+	return "either"
+}
